@@ -35,7 +35,6 @@ TRUSTED = [
 ]
 ASSUMES = ["integer cycling; jobs simulated by the harness; no xtriggers / external triggers / clock triggers; one flow"]
 
-KNOWN_ORPHAN = "held-started-orphan-removed"
 KNOWN_QUEUED = "held-queued-task-unqueued"
 
 KEEP = {"reload_def", "reload_before", "reload_after", "reload_check", "reload_qir", "reload_cmd_end", "reload_cmd_error", "op",
@@ -392,8 +391,7 @@ def _check_reload(scn, rdef, b, a, done, ri):
             started = t["status"] != "waiting"
             if u is None:
                 if started:
-                    cls = KNOWN_ORPHAN if t["held"] else None
-                    fails.append((cls, w + f"{_fmt(t)} (submit number {t['submit_num']}) had started and its definition was "
+                    fails.append((None, w + f"{_fmt(t)} (submit number {t['submit_num']}) had started and its definition was "
                                            f"removed: it was dropped from the pool"))
             else:
                 if not started:
@@ -490,12 +488,13 @@ class ReloadStream(SchedStream):
                       f"reload and must end the same way); non-trivial = a reload that ran on a non-empty pool")
 
     def corpus(self):
-        """Witnesses of the two open findings."""
+        """The witness of the orphan finding fixed by 9a9212a (regression: must pass) and of the open queued finding."""
         base = {"icp": 1, "fcp": 2, "tasks": ["a", "b"],
                 "sections": [{"rec": "P1", "lines": [{"lhs": None, "rhs": "a"}, {"lhs": None, "rhs": "b"}]}],
                 "customs": {}, "opt": [["a", "succeeded", False], ["b", "succeeded", False]], "runahead": 1,
                 "queues": {}, "seed": 1, "fail_rate": 0.0, "custom_rate": 1.0, "disorder": 0.0, "ops": []}
-        # (ii) 1/b is submitted and held, its definition is removed: dropped, while 2/b (submitted, not held) is kept
+        # (ii) 1/b is submitted and held, its definition is removed: it was dropped before 9a9212a (2/b, submitted and
+        #      not held, was kept); now both stay
         c1 = _clone(base)
         s2 = _clone(base)
         remove_tasks(s2, ["b"])
@@ -593,7 +592,7 @@ class ReloadStream(SchedStream):
         for cls, txt in fails:
             if cls is None:
                 return txt
-        for want in (KNOWN_ORPHAN, KNOWN_QUEUED):
+        for want in (KNOWN_QUEUED,):
             for cls, txt in fails:
                 if cls == want:
                     return f"{cls}: {txt}"
@@ -607,7 +606,7 @@ class ReloadStream(SchedStream):
                            [e["scn2"]["sections"] for e in r["trace"] if e["e"] == "reload_def"]], sort_keys=True)
 
     def classify(self, c, r, failure):
-        for kf in (KNOWN_ORPHAN, KNOWN_QUEUED):
+        for kf in (KNOWN_QUEUED,):
             if failure.startswith(kf):
                 return f"reload:{kf}"
         for tag, words in (("orphan", ("definition was removed", "definition removed", "kept orphan")),
@@ -651,15 +650,16 @@ META = {
         "Coq theorems over Model/Reload.v (TaskPool._reload_taskdefs, TaskProxy.copy_to_reload_successor, "
         "TaskPool.check_task_output, queue_if_ready / the main loop's re-queue pass), for ALL pools, old/new definitions and "
         "task_outputs contents: the pool after a reload is, in the same order and with unique ids, exactly the tasks that are "
-        "not (orphaned and (waiting or held or queued)); every task that stays keeps status, flow numbers, submit number, "
+        "not (orphaned and waiting); every task that stays keeps status, flow numbers, submit number, "
         "held / runahead / manual flags and completed outputs, and nothing else appears; a still-defined task is never "
         "dropped; a reloaded task has exactly the prerequisite keys of the new definition; a key that existed before keeps "
         "its satisfaction; a new key is satisfied only if task_outputs records that output for overlapping flow numbers "
         "(iff when one row overlaps; never for a task in no flow); reloading an unchanged definition is the identity up to "
         "the queued flag; reloading twice equals reloading once up to the prerequisites of orphans kept by the first reload "
-        "(idempotent when none is kept). Two clauses of the property text are REFUTED in the faithful model and "
-        "reproduced on the real scheduler (open findings, fixes proposed): 'dropped only if not started' "
-        "(c27_orphans_refuted: a held submitted/running orphan is dropped; proved when no orphan is held) and 'queued flag "
+        "(idempotent when none is kept); tasks whose definition was removed are dropped only if they have not started "
+        "(c27_orphans_dropped_only_if_not_started, for all pools since the fix 9a9212a; the old witness, a held submitted "
+        "orphan, is a regression Example and corpus case). One clause of the property text is REFUTED in the faithful "
+        "model and reproduced on the real scheduler (open finding, fix proposed): 'queued flag "
         "preserved' (c27_queued_refuted: TaskPool.reload clears is_queued; c27_requeue_restores: the main loop re-queues "
         "ready un-held tasks in the same iteration; c27_held_queued_lost_refuted: a held queued task stays un-queued). "
         "Tie: every real reload of the generated runs (unchanged / extended / shrunk / targeted definitions, 1-2 reloads per "
@@ -676,8 +676,8 @@ META = {
         "strings are not distinguished). Not modelled (oracle / run-to-completion only): xtriggers, runtime settings of the "
         "new definition, the data store, try timers, is_late / clock-expire times, the queue order (a reload re-queues in "
         "pool order: reported with the queued finding), the flush of preparing tasks before the reload, compute_runahead "
-        "after it. Trusted: Coq kernel+VM, vp/sched/driver.py (fake process pool), vp/sched/reload_ext.py. Two open "
-        "findings are reported as KNOWN-FINDING and do not fail the check."),
+        "after it. Trusted: Coq kernel+VM, vp/sched/driver.py (fake process pool), vp/sched/reload_ext.py. One open "
+        "finding (queued flag) is reported as KNOWN-FINDING and does not fail the check."),
     "technique": ("Coq proof (all pools/definitions/DB contents; refutation witnesses) over an executable model of the pool "
                   "reload + in-Coq comparison with real reloads of generated scheduler runs + snapshot oracle"),
     "design_ref": "5/C27",
